@@ -328,6 +328,38 @@ def check_reconfig(case):
     return True, ["reconfigured", how]
 
 
+def fresh_container_cases(tier, seed):
+    for op in ("get_many", "gets_many"):
+        for n in (1, 2, 3):
+            yield (op, n)
+
+
+def check_fresh_container(case):
+    """a caller may do what it likes with a returned container (e.g. collect read-through results into it): that must
+    not change what later reads - on this or any other FallbackClient - return"""
+    op, n = case
+    log = []
+    a = FallbackClient([Scripted(i, set(), log) for i in range(n)])
+    r = getattr(a, op)([K1, K2])
+    try:
+        if isinstance(r, list):
+            r.append(("polluted", 1))
+        elif isinstance(r, dict):
+            r["polluted"] = 1
+    except Exception:  # noqa: BLE001
+        pass
+    holder = Scripted(7, {K1}, log)
+    b = FallbackClient([FallbackClient([Scripted(5, set(), log), Scripted(6, set(), log)]), holder])
+    del log[:]
+    r2 = getattr(b, op)([K1, K2])
+    if 7 not in [i for i, _n, _b in log]:
+        raise Violation(["stale-container"], "%s: after a caller mutated the container an earlier all-miss read returned, a later all-miss read answered %r and the cache holding the key was never consulted" % (op, r2))
+    r3 = getattr(a, op)([K1, K2])
+    if not _is_miss(op, r3):
+        raise Violation(["stale-container"], "%s: an all-miss read returned %r (left over from a container handed to an earlier caller)" % (op, r3))
+    return True, ["fresh-container", op]
+
+
 # ---- real Clients over the fake network ---------------------------------------------------
 
 
@@ -431,6 +463,7 @@ PARTS = [
     Part("reads-scripted", "enum", check_read, cases=read_cases, shards={"quick": 2, "thorough": 2}, exhaustive=True),
     Part("writes-scripted", "enum", check_write, cases=write_cases, shards={"quick": 2, "thorough": 2}, exhaustive=True),
     Part("reconfigured-cache-list", "enum", check_reconfig, cases=reconfig_cases, shards={"quick": 1, "thorough": 1}, exhaustive=True),
+    Part("returned-containers", "enum", check_fresh_container, cases=fresh_container_cases, shards={"quick": 1, "thorough": 1}, exhaustive=True),
     Part("reads-real", "enum", check_read_real, cases=read_real_cases, shards={"quick": 4, "thorough": 4}, exhaustive=True),
     Part("writes-real", "enum", check_write_real, cases=write_cases, shards={"quick": 4, "thorough": 4}, exhaustive=True),
 ]
